@@ -501,8 +501,9 @@ impl StakeKeeper {
             validator_info.stakers.clear();
         } else {
             // otherwise we update all stakers
+            let mut remaining_stake = Decimal::zero();
             for delegator in validator_info.stakers.iter() {
-                STAKES.update(
+                let shares = STAKES.update(
                     staking_storage,
                     (delegator, validator),
                     |stake| -> AnyResult<_> {
@@ -512,7 +513,10 @@ impl StakeKeeper {
                         Ok(stake)
                     },
                 )?;
+                remaining_stake += shares.stake;
             }
+            // the stakers keep fractions of a token, the validator holds what they hold together
+            validator_info.stake = Uint128::new(1).mul_floor(remaining_stake);
         }
         // go through the queue to slash all pending unbondings
         let mut unbonding_queue = UNBONDING_QUEUE
